@@ -577,8 +577,9 @@ def commitMap (markId : Nat → Option Bytes) (pairs : List (Bytes × Option Nat
     | some mk => (match markId mk with | some id => old ++ [0x20] ++ id ++ [B.lf] | none => [])
     | none => old ++ [0x20] ++ zeroId ++ [B.lf]).flatten
 
-/-- `ref-map` (written only when non-empty) -/
+/-- `ref-map` (written only when non-empty): the recorded renames whose two names differ — a rule such as `--tag-rename v:v`
+    records every matching ref with its own name, which is no rename -/
 def refMap (renames : List (Bytes × Bytes)) : Bytes :=
-  (renames.map fun (a, b) => a ++ [0x20] ++ b ++ [B.lf]).flatten
+  ((renames.filter fun (a, b) => a != b).map fun (a, b) => a ++ [0x20] ++ b ++ [B.lf]).flatten
 
 end Frrs
